@@ -262,7 +262,7 @@ func countTags(n *Node) (carousels, hamburgers int) {
 }
 
 func runC05(res *Result, tier string, seed int64, replay string) {
-	res.Rule = "every document is also compiled right after compilations that FAILED (an element that cannot be rendered behind sections already written, in a hero, in a wrapper; a parse error; a validation error) and must return the same bytes; documents = seeded grammar documents biased to ≥2 distinct web-font families (stacks naming several mapped fonts included), several column widths, mj-class lists, global attributes, carousels and hamburger navbars, + all fixtures + every built-in social network by its plain name and its variants (-noshare, another suffix, upper case); each compiled N times in this process (sequentially) and once in each of P fresh processes that compile the whole list in different orders (one of them the exact reverse); + pairs of documents differing in one class of head content only (other mj-attributes / mj-class / inline rules / fonts, same body and author HTML); outputs compared byte-wise after α-renaming the 16-hex generated ids; per output the number of distinct ids must equal the number of carousels + hamburger navbars. Font lookup: real GetGoogleFontURL vs the Lean model `pick` on every family. Non-trivial = document with ≥2 distinct font families; distinct by source"
+	res.Rule = "every document is also compiled right after compilations that FAILED (an element that cannot be rendered behind sections already written, in a hero, in a wrapper; a parse error; a validation error) and must return the same bytes; documents = seeded grammar documents biased to ≥2 distinct web-font families (stacks naming several mapped fonts included), several column widths, mj-class lists, global attributes, carousels and hamburger navbars, + all fixtures + documents that declare the same web font twice + every built-in social network by its plain name and its variants (-noshare, another suffix, upper case); each compiled N times in this process (sequentially) and once in each of P fresh processes that compile the whole list in different orders (one of them the exact reverse); + pairs of documents differing in one class of head content only (other mj-attributes / mj-class / inline rules / fonts, same body and author HTML); outputs compared byte-wise after α-renaming the 16-hex generated ids; per output the number of distinct ids must equal the number of carousels + hamburger navbars. Font lookup: real GetGoogleFontURL vs the Lean model `pick` on every family. Non-trivial = document with ≥2 distinct font families; distinct by source"
 	nDocs, reps, procs := 150, 20, 4
 	if tier == "thorough" {
 		nDocs, reps, procs = 1500, 100, 12
@@ -311,6 +311,13 @@ func runC05(res *Result, tier string, seed int64, replay string) {
 			for nm, b := range map[string]string{"plain": plain.String(), "noshare": noshare.String(), "other": other.String()} {
 				docs = append(docs, doc{"social-names:" + nm, "<mjml><mj-body><mj-section><mj-column><mj-social>" + b + "</mj-social><mj-social mode=\"vertical\">" + b + "</mj-social></mj-column></mj-section></mj-body></mjml>", nil})
 			}
+		}
+		// the same web font declared twice (a head partial included twice), next to other declared and built-in fonts
+		for k, head := range []string{
+			`<mj-font name="Dup" href="https://f.example/dup.css"/><mj-font name="Dup" href="https://f.example/dup.css"/><mj-font name="Other" href="https://f.example/other.css"/>`,
+			`<mj-font name="A" href="https://f.example/same.css"/><mj-font name="B" href="https://f.example/same.css"/><mj-font name="C" href="https://f.example/c.css"/><mj-font name="A" href="https://f.example/same.css"/>`,
+		} {
+			docs = append(docs, doc{fmt.Sprintf("fonts:declared-twice-%d", k), "<mjml><mj-head>" + head + `</mj-head><mj-body><mj-section><mj-column><mj-text font-family="Dup, A, Roboto">a</mj-text><mj-text font-family="Other, C, Lato">b</mj-text><mj-button font-family="Ubuntu" href="u">c</mj-button></mj-column></mj-section></mj-body></mjml>`, nil})
 		}
 		// "regardless of what was compiled before": pairs of documents that differ in one class of head content only (the same
 		// body, the same author HTML, other mj-attributes / mj-class / inline rules / fonts …) — state kept from one compilation
@@ -902,7 +909,7 @@ func eqOps(h []string) []string {
 }
 
 func runC08(res *Result, tier string, seed int64, replay string) {
-	res.Rule = "histories of calls to Render / RenderWithAST / RenderFromAST / NewFromAST / RenderComponentString (plus Render with cache and with debug; plus trees the caller parsed once or got back from RenderWithAST and keeps: rendered and built from any number of times, each time required to behave like a fresh parse) over five documents with conflicting heads (two with different mj-all / tag / mj-class defaults, one without head and with a group, one unparsable, one with a validation error); every history runs in a fresh process; each result is compared with the same call made FIRST in a fresh process, and with the Lean API model (driver `api`), which says which results must be the fresh ones and which trees are rendered with another document's store. Also: Render = class-order rewrite of RenderFromAST; the paths agree (HTML, returned error, what the reporter hears) when the caller passes an option of its own, a validation reporter. Non-trivial = history with ≥2 calls on different documents; distinct by op list"
+	res.Rule = "histories of calls to Render / RenderWithAST / RenderFromAST / NewFromAST / RenderComponentString (plus Render with cache and with debug; plus trees the caller parsed once or got back from RenderWithAST and keeps: rendered and built from any number of times, each time required to behave like a fresh parse) over five documents with conflicting heads (two with different mj-all / tag / mj-class defaults, one without head and with a group, one unparsable, one with a validation error); every history runs in a fresh process; each result is compared with the same call made FIRST in a fresh process, and with the Lean API model (driver `api`), which says which results must be the fresh ones and which trees are rendered with another document's store. Also: Render = class-order rewrite of RenderFromAST; the paths agree (HTML, returned error, what the reporter hears) when the caller passes an option of its own, a validation reporter; and on sources whose root is not a complete <mjml> document (fragments, a lone body or head element, no body, two bodies). Non-trivial = history with ≥2 calls on different documents; distinct by op list"
 	drv, err := startDriverPool(4)
 	if err != nil {
 		res.Disagree(Violation{Sig: "driver-missing", What: err.Error()})
@@ -989,6 +996,42 @@ func runC08(res *Result, tier string, seed int64, replay string) {
 			}
 			if bad != "" {
 				res.Violate(Violation{Sig: fmt.Sprintf("paths-disagree|with-caller-reporter|doc%d", d), Kind: "history", What: "with a validation reporter supplied by the caller as an option: " + bad, Input: map[string]interface{}{"source": apiDocs[d]}})
+			}
+		}
+	}
+	// sources whose root element is not <mjml> (a fragment, a lone body, a head element, the root without a body, two
+	// bodies): whatever the one-shot call makes of them, the other paths make the same of them
+	if replay == "" {
+		frags := []string{
+			`<mj-section><mj-column><mj-text>fragment</mj-text></mj-column></mj-section>`, `<mj-text>Hello</mj-text>`, `<mj-body/>`,
+			`<mj-body><mj-section><mj-column><mj-text>b</mj-text></mj-column></mj-section></mj-body>`, `<mj-title>x</mj-title>`, `<mj-head><mj-title>x</mj-title></mj-head>`,
+			`<mjml/>`, `<mjml><mj-head><mj-title>t</mj-title></mj-head></mjml>`,
+			`<mjml><mj-body><mj-section><mj-column><mj-text>one</mj-text></mj-column></mj-section></mj-body><mj-body><mj-section><mj-column><mj-text>two</mj-text></mj-column></mj-section></mj-body></mjml>`,
+			`<mj-wrapper><mj-section><mj-column><mj-text>w</mj-text></mj-column></mj-section></mj-wrapper>`, `<div>not mjml at all</div>`,
+		}
+		for d := range frags {
+			get := func(ops ...string) apiObs {
+				obs, _ := runAPIChild(apiJob{Docs: frags, Ops: ops, Full: true})
+				if len(obs) != len(ops) {
+					return apiObs{Err: "<process ended>"}
+				}
+				return obs[len(obs)-1]
+			}
+			r, w, f := get(fmt.Sprintf("R%d", d)), get(fmt.Sprintf("W%d", d)), get(fmt.Sprintf("F%d", d))
+			nt := get(fmt.Sprintf("N%d", d), "T0")
+			res.Case(fmt.Sprintf("fragment-root|%d", d), true)
+			res.Count("paths-on-fragment-roots")
+			bad := ""
+			switch {
+			case (r.Err == "") != (f.Err == "") || (w.Err == "") != (f.Err == ""):
+				bad = fmt.Sprintf("one path fails, another does not: Render %q, RenderWithAST %q, RenderFromAST %q", r.Err, w.Err, f.Err)
+			case alphaIDs(mjml.VerifNormalizeGroupColumnClassOrder(f.HTML)) != alphaIDs(r.HTML) || alphaIDs(w.HTML) != alphaIDs(f.HTML):
+				bad = fmt.Sprintf("returned HTML differs: Render %q, RenderWithAST %q, RenderFromAST %q", short(r.HTML, 60), short(w.HTML, 60), short(f.HTML, 60))
+			case f.Err == "" && alphaIDs(nt.HTML) != alphaIDs(f.HTML):
+				bad = fmt.Sprintf("NewFromAST+RenderComponentString gives %q (err %q), RenderFromAST %q", short(nt.HTML, 60), nt.Err, short(f.HTML, 60))
+			}
+			if bad != "" {
+				res.Violate(Violation{Sig: fmt.Sprintf("paths-disagree|fragment-root|%d", d), Kind: "history", What: "a source whose root is not a complete <mjml> document: " + bad, Input: map[string]interface{}{"source": frags[d]}})
 			}
 		}
 	}
